@@ -169,6 +169,123 @@ def _():
     return [('least', [ForAll([c], Implies(Select(A, c), Select(B, c))), T.EcloP_least(P, A, T.EcloP(P.z, B)), Select(T.EcloP(P.z, A), c0)], Select(T.EcloP(P.z, B), c0))]
 
 
+@proof('dfax', 'dhat-app')
+def _():
+    d = Const('d_', T.DeltaD); q = Const('q_', Atom)
+    return word_ind(lambda v: ForAll([u_], T.dhat(d, q, T.app(u_, v)) == T.dhat(d, T.dhat(d, q, u_), v)))
+
+
+@proof('dfax', 'Reach1-of-word')
+def _():
+    d = Const('d_', T.DeltaD); Sg = Const('Sg_', T.SetA); q = Const('q_', Atom)
+    return word_ind(lambda v: Implies(And(v != Word.nil, T.over(Sg, v)), Select(T.Reach1(d, Sg, q), T.dhat(d, q, v))))
+
+
+@proof('dfax', 'Reach1-has-word')
+def _():
+    d = Const('d_', T.DeltaD); Sg = Const('Sg_', T.SetA); q, x, a, y = Consts('q_ x_ a_ y_', Atom); v = Const('v_', Word)
+    Tt = Const('T_', T.SetA)
+    defT = ForAll([y], Select(Tt, y) == Exists([v], And(v != Word.nil, T.over(Sg, v), T.dhat(d, q, v) == y)))
+    # the two closure conditions with explicit witnesses ([a] and snoc(v, a)), then the leastness instance
+    seed = ('seed', [defT, Select(Sg, a)], Select(Tt, Select(d, T.mkKey2(q, a))))
+    seedw = ('seed-witness', [Select(Sg, a)], And(Word.snoc(Word.nil, a) != Word.nil, T.over(Sg, Word.snoc(Word.nil, a)), T.dhat(d, q, Word.snoc(Word.nil, a)) == Select(d, T.mkKey2(q, a))))
+    stepw = ('step-witness', [v != Word.nil, T.over(Sg, v), Select(Sg, a)], And(Word.snoc(v, a) != Word.nil, T.over(Sg, Word.snoc(v, a)), T.dhat(d, q, Word.snoc(v, a)) == Select(d, T.mkKey2(T.dhat(d, q, v), a))))
+    closed = ('closed', [defT, Select(Tt, x), Select(Sg, a), ForAll([v, a], Implies(And(v != Word.nil, T.over(Sg, v), Select(Sg, a)), And(T.over(Sg, Word.snoc(v, a)), T.dhat(d, q, Word.snoc(v, a)) == Select(d, T.mkKey2(T.dhat(d, q, v), a)))))], Select(Tt, Select(d, T.mkKey2(x, a))))
+    least = ('least', [defT, T.Reach_least(d, Sg, q, Tt, True), ForAll([a], Implies(Select(Sg, a), Select(Tt, Select(d, T.mkKey2(q, a))))),
+                       ForAll([x, a], Implies(And(Select(Tt, x), Select(Sg, a)), Select(Tt, Select(d, T.mkKey2(x, a))))), Select(T.Reach1(d, Sg, q), y)],
+             Exists([v], And(v != Word.nil, T.over(Sg, v), T.dhat(d, q, v) == y)))
+    return [seedw, seed, stepw, closed, least]
+
+
+@proof('dfax', 'nap-prefixes')
+def _():
+    d = Const('d_', T.DeltaD); Fs = Const('Fs_', T.SetA); q = Const('q_', Atom)
+    return word_ind(lambda w: T.nap(d, Fs, q, w) == ForAll([u_], Implies(And(T.isprefix(u_, w), u_ != w), Not(Select(Fs, T.dhat(d, q, u_))))))
+
+
+@proof('dfax', 'Eclo-no-eps')
+def _():
+    V = Const('V_', T.ViewN); e = Const('e_', Atom); S = Const('S0_', T.SetA); x, y = Consts('x_ y_', Atom)
+    hyp = ForAll([x, y], Implies(Select(S, x), Not(Select(Select(V, T.mkKey2(x, e)), y))))
+    return [('least', [hyp, T.Eclo_least(V, e, S, S)], ForAll([x], Select(T.Eclo(V, e, S), x) == Select(S, x)))]
+
+
+@proof('dfax', 'dhat-cons')
+def _():
+    d = Const('d_', T.DeltaD); q, a = Consts('q_ a_', Atom)
+    return word_ind(lambda v: T.dhat(d, q, T.cons(a, v)) == T.dhat(d, Select(d, T.mkKey2(q, a)), v))
+
+
+@proof('dfax', 'rev-over')
+def _():
+    S = Const('S0_', T.SetA); a = Const('a_', Atom)
+    aux = ForAll([a, w_], T.over(S, T.cons(a, w_)) == And(Select(S, a), T.over(S, w_)))
+    return [('aux-' + t, h, g) for (t, h, g) in word_ind(lambda w: T.over(S, T.cons(a, w)) == And(Select(S, a), T.over(S, w)))] + \
+           [(t, [aux] + h, g) for (t, h, g) in word_ind(lambda w: T.over(S, T.rev(w)) == T.over(S, w))]
+
+
+@proof('dfax', 'rev-app')
+def _():
+    a = Const('a_', Atom)
+    assoc = ForAll([u_, w_, a], T.app(u_, T.cons(a, w_)) == T.app(Word.snoc(u_, a), w_))
+    assoc3 = ForAll([u_, v_, w_], T.app(T.app(u_, v_), w_) == T.app(u_, T.app(v_, w_)))
+    p1 = [('assoc-' + t, h, g) for (t, h, g) in word_ind(lambda w: ForAll([u_, v_], T.app(T.app(u_, v_), w) == T.app(u_, T.app(v_, w))))]
+    p2 = [(t, [assoc3] + h, g) for (t, h, g) in word_ind(lambda v: ForAll([u_], T.rev(T.app(u_, v)) == T.app(T.rev(v), T.rev(u_))))]
+    return p1 + p2
+
+
+@proof('dfax', 'rev-rev')
+def _():
+    return word_ind(lambda w: T.rev(T.rev(w)) == w)
+
+
+@proof('dfax', 'noprefix-sim')
+def _():
+    D, N = SV(REC('DFA'), Const('D_', sort_of(REC('DFA')))), SV(REC('NFA'), Const('N_', T._NFAs))
+    d, q0, Fz, Sg = T.dfa_delta_val(D), rec_get(D, 'q0').z, rec_get(D, 'F').z, rec_get(D, 'Sigma').z
+    V, e = T.nfa_view(N), T._eps(N); x = Const('x_', Atom)
+    hyp = T.np_struct(D, N)
+    closed = ForAll([w_], Implies(T.over(Sg, w_), Select(rec_get(D, 'Q').z, T.dhat(d, q0, w_))))
+    P = lambda w: Implies(T.over(Sg, w), ForAll([x], Select(T.Nhat(V, e, rec_get(N, 'q0').z, w), x) == And(T.nap(d, Fz, q0, w), x == T.dhat(d, q0, w))))
+    return [('closed', [hyp], closed)] + [(t, [hyp, closed] + h, g) for (t, h, g) in word_ind(P)]
+
+
+@proof('dfax', 'reverse-sim')
+def _():
+    D, N = SV(REC('DFA'), Const('D_', sort_of(REC('DFA')))), SV(REC('NFA'), Const('N_', T._NFAs))
+    d, Fz, Sg, Q = T.dfa_delta_val(D), rec_get(D, 'F').z, rec_get(D, 'Sigma').z, rec_get(D, 'Q').z
+    V, e, n0 = T.nfa_view(N), T._eps(N), rec_get(N, 'q0').z; x, y = Consts('x_ y_', Atom)
+    hyp = T.rev_struct(D, N)
+    seed = z3.Store(z3.K(Atom, False), n0, True)
+    T0 = Const('T0_', T.SetA)
+    defT0 = ForAll([x], Select(T0, x) == Or(x == n0, Select(Fz, x)))
+    epsfact = ForAll([x, y], Select(Select(V, T.mkKey2(x, e)), y) == And(x == n0, Select(Fz, y)))
+    nil_def = T.Nhat(V, e, n0, Word.nil) == T.Eclo(V, e, seed)
+    base = [('base-eps', [hyp], epsfact), ('base-nil', [], nil_def),
+            ('base-sub', [epsfact, defT0, T.Eclo_least(V, e, seed, T0)], ForAll([x], Implies(Select(T.Eclo(V, e, seed), x), Select(T0, x)))),
+            ('base-sup', [epsfact, defT0], ForAll([x], Implies(Select(T0, x), Select(T.Eclo(V, e, seed), x)))),
+            ('base', [nil_def, defT0, ForAll([x], Implies(Select(T.Eclo(V, e, seed), x), Select(T0, x))), ForAll([x], Implies(Select(T0, x), Select(T.Eclo(V, e, seed), x)))], ForAll([x], Select(T.Nhat(V, e, n0, Word.nil), x) == Select(T0, x)))]
+    P = lambda w: Implies(T.over(Sg, w), ForAll([x], Select(T.Nhat(V, e, n0, w), x) == z3.If(w == Word.nil, Or(x == n0, Select(Fz, x)), And(Select(Q, x), Select(Fz, T.dhat(d, x, T.rev(w)))))))
+    w = Const('w_', Word); a = Const('a_', Atom)
+    M = T.move(V, T.Nhat(V, e, n0, w), a)
+    # the move set is a set of D-states, which have no epsilon moves: its closure is itself
+    mv = ('step-move', [hyp, P(w), T.over(Sg, Word.snoc(w, a))], ForAll([x], Select(M, x) == And(Select(Q, x), Select(Fz, T.dhat(d, x, T.rev(Word.snoc(w, a)))))))
+    st = ('step', [hyp, T.over(Sg, Word.snoc(w, a)), ForAll([x], Select(M, x) == And(Select(Q, x), Select(Fz, T.dhat(d, x, T.rev(Word.snoc(w, a))))))], P(Word.snoc(w, a)))
+    return base + [mv, st]
+
+
+@proof('dfax', 'total-sim')
+def _():
+    D, R = SV(REC('DFA'), Const('D_', T._DFAs)), SV(REC('DFA'), Const('R_', T._DFAs))
+    dl = rec_get(D, 'delta'); q0 = rec_get(D, 'q0').z; Sg = rec_get(D, 'Sigma').z
+    d2 = T.dfa_delta_val(R); dm, dv = map_dom(dl), map_val(dl)
+    hyp = T.tot_struct(D, R)
+    P = lambda w: Implies(T.over(Sg, w), And(Select(rec_get(R, 'Q').z, T.dhat(d2, q0, w)),
+                  z3.If(T.run_ok(dm, dv, q0, w), And(T.dhat(d2, q0, w) == T.dhat(dv, q0, w), Select(rec_get(D, 'Q').z, T.dhat(dv, q0, w))),
+                        Not(Select(rec_get(D, 'Q').z, T.dhat(d2, q0, w))))))
+    return [(t, [hyp] + h, g) for (t, h, g) in word_ind(P)]
+
+
 def int_ind(P, lo=0):
     """induction on an integer >= lo: P(lo) and (j >= lo and P(j)) => P(j+1)"""
     j = fresh_z('j', z3.IntSort())
@@ -193,13 +310,23 @@ def prove_lemmas(theories, timeout=10):
     """-> list of (name, status, log); a lemma may use the def/lfp/assumed axioms of the selected theories and earlier lemmas"""
     from .smt import discharge
     obls = []
-    order = ['word', 'wordx', 'naming', 'dfa', 'nfa', 'regexp', 'tm', 'pda', 'cfg', 'iso', 'subset']
+    order = ['word', 'wordx', 'naming', 'dfa', 'nfa', 'dfax', 'regexp', 'tm', 'pda', 'cfg', 'iso', 'subset']
     ths = [t for t in order if t in theories] + [t for t in theories if t not in order]
-    avail = []
-    for th in ths:
-        avail += [f for (tag, n, f) in T.AXIOMS.get(th, []) if tag in ('def', 'lfp', 'assumed')]
+    from .verify import DEPENDS
+    def closure(t, out=None):
+        out = [] if out is None else out
+        for d_ in DEPENDS.get(t, []): closure(d_, out)
+        if t not in out: out.append(t)
+        return out
     jobs = []
+    proved_so_far = {}          # theory -> lemmas already stated (in file order)
     for th in ths:
+        # a lemma of theory th sees the definitions of th and of the theories th depends on, their lemmas, and the earlier lemmas of th
+        deps = closure(th)
+        avail = []
+        for t in deps:
+            avail += [f for (tag, n, f) in T.AXIOMS.get(t, []) if tag in ('def', 'lfp', 'assumed')]
+            if t != th: avail += [f for (tag, n, f) in T.AXIOMS.get(t, []) if tag == 'lemma']
         for (tag, n, f) in T.AXIOMS.get(th, []):
             if tag != 'lemma': continue
             pf = PROOFS.get((th, n))
